@@ -236,9 +236,15 @@ ElemAttribute::startElement(StylesheetExecutionContext& executionContext) const
                         const XalanDOMString* const theNamespace =
                             executionContext.getResultNamespaceForPrefix(newPrefix);
 
-                        if (theNamespace != 0 &&
-                            equals(*theNamespace, attrNameSpace) == false &&
-                            executionContext.isPendingResultPrefix(newPrefix) == true)
+                        // A prefix that is in scope for another namespace
+                        // cannot be used either, even if it was declared on
+                        // an ancestor:  the name of the pending element or
+                        // one of its literal attributes may rely on it.
+                        // Neither can xml, which is bound to one namespace.
+                        if ((theNamespace != 0 &&
+                             equals(*theNamespace, attrNameSpace) == false) ||
+                            (equals(newPrefix, DOMServices::s_XMLString) == true &&
+                             equals(attrNameSpace, DOMServices::s_XMLNamespaceURI) == false))
                         {
                             // It doesn't, so we'll need to manufacture a
                             // prefix.
@@ -559,9 +565,15 @@ ElemAttribute::execute(StylesheetExecutionContext&  executionContext) const
                         const XalanDOMString* const theNamespace =
                             executionContext.getResultNamespaceForPrefix(newPrefix);
 
-                        if (theNamespace != 0 &&
-                            equals(*theNamespace, attrNameSpace) == false &&
-                            executionContext.isPendingResultPrefix(newPrefix) == true)
+                        // A prefix that is in scope for another namespace
+                        // cannot be used either, even if it was declared on
+                        // an ancestor:  the name of the pending element or
+                        // one of its literal attributes may rely on it.
+                        // Neither can xml, which is bound to one namespace.
+                        if ((theNamespace != 0 &&
+                             equals(*theNamespace, attrNameSpace) == false) ||
+                            (equals(newPrefix, DOMServices::s_XMLString) == true &&
+                             equals(attrNameSpace, DOMServices::s_XMLNamespaceURI) == false))
                         {
                             // It doesn't, so we'll need to manufacture a
                             // prefix.
